@@ -284,7 +284,9 @@ def run_family(ctx, prop, family, n_quick, n_thorough, corpus_props, steered=Non
         genstats(ctx, err)
         cases += split_cases(gens)
     ctx.rule = ("%d corpus cases (schedule-dependent witnesses `*.rep.ops` repeated 25 / 3000 times) + %d generated task graphs (family %s, VERIF_SEED=%d): random DAGs of 1-16 tasks with wait lists over "
-                "earlier siblings (8%% deliberately invalid: unknown / later / own name), failing commands in any subset of tasks, "
+                "earlier siblings (8%% deliberately invalid: unknown / later / own name), failing commands in any subset of tasks "
+                "(a command that returns an error, an UNKNOWN command name, a TRUNCATED last command; try bodies that STOP their own "
+                "scope), "
                 "nested pip:run submissions and pip:try blocks to depth 3, handler subsets and failing handlers enumerated, bodies "
                 "blocked on harness gates released in PRNG order so that tasks overlap; each case is executed by the real app and "
                 "its event trace is decided by the Lean monitor. non-trivial = >= 2 tasks with a wait edge / nested submission / "
